@@ -269,14 +269,22 @@ class Evaluator:
         self.div = None          # first divergence: (key, description)
         self.frames = []
 
-    @staticmethod
-    def guard_pow(l, r):
-        """keep a (possibly defective) implementation from raising huge numbers to huge powers"""
+    def guard_pow(self, l, r):
+        """keep a (possibly defective) implementation from raising big numbers to huge powers: neither the
+        exponent as written nor its value in root units may be large"""
         b = l._magnitude if is_q(l) else l
         e = r._magnitude if is_q(r) else r
         if exact(b) and exact(e):
+            big = abs(F(e))
+            if is_q(r):
+                try:
+                    f = self.w.fac(units_of(r))
+                    if f is not None:
+                        big = max(big, abs(F(e) * f))
+                except Skip:
+                    pass
             bits = F(b).numerator.bit_length() + F(b).denominator.bit_length()
-            if bits * abs(F(e)) > 12000:
+            if bits * big > 12000:
                 raise Skip("power too large")
 
     @staticmethod
@@ -751,13 +759,16 @@ def run(ck):
 
     # ---------------- stream 1: exact trees
     import os
+    import faulthandler
+    import signal
+    faulthandler.register(signal.SIGUSR1, all_threads=True)      # kill -USR1 <pid> prints where the run is
     scale = float(os.environ.get("C03_SCALE", "1") or 1)      # development aid only; evidence records it
 
     def N(quick, thor):
         return max(1, int((thor if thorough else quick) * scale))
     ck.extra["scale"] = scale
     n_trees = N(4000, 50000)
-    n_tree_model = N(1000, 7000)
+    n_tree_model = N(800, 7000)
     maxdepth = 6 if thorough else 4
     n_model = 0
     skipped = 0
@@ -829,7 +840,7 @@ def run(ck):
             v = spec[1] * W.fac(spec[2])
         return is_nan(v) or F(v).denominator == 1
 
-    pairs_n = N(400, 2500)
+    pairs_n = N(300, 2500)
     for i in range(pairs_n):
         d = runits()
         a = ("Q", rmag(), d)
